@@ -37,6 +37,19 @@ CHECKS = {
  "C14": dict(tech="TLC (RootOps.tla) computes expected errno class and final tree for every (tree, op, spelling); replayed three-way: library with openat2, library without, and the harness' raw *at call on (openat2-RESOLVE_IN_ROOT parent, name)",
              text="ExactEffect: outcome and final tree of create/create_file/remove_file/remove_dir/rename equal those of the corresponding *at call on (in-root parent, final name); kernel model cross-checked (0 mismatches on the unchanged tree).",
              note="bounded instance (two trees, spellings <= 2-3 components); modes compared as inode kind", ref="6/C14"),
+
+ "C09": dict(tech="TLC enumeration of Reopen.tla (inode kind x access mode x extra flag x descriptor number x history) replayed through Handle::reopen and pathrs_reopen on both feature sets, plus a private-descriptor-table thread scenario",
+             text="Every enumerated case: same inode as the handle, requested access mode/flags + O_CLOEXEC, ELOOP for symlink handles, creation flags refused, independence of the descriptor number (0, 1, 100) and of rename/replace/unlink histories; a thread with unshare(CLONE_FILES) whose leader holds decoys at the same numbers.",
+             note="static histories (attacker interleavings are C02/C11); host-/proc over-mount behaviour of the same code path is exercised by C06", ref="6/C09"),
+ "C15": dict(tech="TLC enumeration of Psl.tla (648 combinations, invariant SameRefusals) replayed with real chown/chmod/seteuid and the real sysctl on both backends and a raw openat2",
+             text="Exhaustive over directory sticky/world-writable bits, directory owner, link owner, caller, link position and sysctl value; library verdict compared with the kernel's measured verdict and the model.",
+             note="sysctl is global: set under an exclusive lock and restored; fresh worker per sysctl value", ref="6/C15"),
+ "C16": dict(tech="TLC model checking of ErrTable.tla (+ no-retry variant) and TLC linearizability validation (TraceErr.tla) of real multi-threaded histories; birthday runs with 3*10^5..10^6 outstanding ids",
+             text="Design: 3 threads, 4 failures, id space 3: LiveIdsDistinct, IdBelowErrnoRange, ConsumeReturnsThatFailure hold, and fail without the Occupied-retry. Code: random concurrent histories (2-6 threads, several error kinds, ids consumed on other threads) must be linearizable against the table model; enough ids are kept outstanding that collisions in the real 2^31 id space occur.",
+             note="intervals from one atomic counter; collision coverage is probabilistic (expected 21 colliding pairs at N=3*10^5)", ref="6/C16"),
+ "C17": dict(tech="TLC enumerates CBoundary.tla completely (function x invalid-argument class x value; link length x buffer size); every case executed against the real C ABI",
+             text="Small-scope exhaustive, test per transition: error id + EINVAL + no effect (descriptor table, tree, current directory, caller buffer) for every invalid argument; readlink returns L, copies min(L,B), never writes beyond, NULL/0 allowed.",
+             note="memory safety beyond canaries is outside this technique", ref="6/C17"),
 }
 
 NA = {
